@@ -166,6 +166,10 @@ func (i *IPFIX) run() {
 		ipfixUDPCh <- IPFIXUDPMsg{raddr, b[:n]}
 	}
 
+	// the receive loop is the only sender: closing the channel here, and not in
+	// shutdown, can not race with a send that is still in progress
+	close(ipfixUDPCh)
+
 }
 
 func (i *IPFIX) shutdown() {
@@ -184,9 +188,8 @@ func (i *IPFIX) shutdown() {
 		logger.Println("couldn't not dump template", err)
 	}
 
-	// logging and close UDP channel
+	// logging
 	logger.Println("ipfix has been shutdown")
-	close(ipfixUDPCh)
 }
 
 func (i *IPFIX) ipfixWorker(wQuit chan struct{}) {
